@@ -7,11 +7,20 @@
    (4) literal model of the unbalanced primary (LinkPrim, the sc_ functions), ALL sequences of received frames, clock values and application
    calls (send, class 1/2 request, link test): a message handed over is written as a NEW user-data frame at most once unless the
    link failure was reported, the slave answered negatively or the message was confirmed (repaired code; refuted for the original).
-   NOT proved: that the composition LinkPrim x channel x LinkSec refines (1).  The step lemmas of C15 are the
-   ingredients; the composition itself is checked by differential execution of the composed model against the real
-   CS101_Master / CS101_Slave objects on the simulated line, and by the exactly-once oracle, on every run. *)
+   (5) COMPOSITION, balanced line, master -> slave direction (Link/LinkLine.v): the literal balanced primary (pb_run / pb_handle)
+   of one station and the literal balanced secondary (sb_handle) of the other, connected by octets on a line that may lose any
+   frame in either direction and delivers the others at once (each station parses what it receives with the literal
+   parse_bp): for EVERY sequence of station runs at any clock values, losses, hand-overs, link test requests and idle-timer
+   resets, while the link has not been reported in error, what the receiving application was handed is what the sender took
+   from its queue -- in order, each message once -- except possibly the one message whose confirmation is outstanding
+   (C16_line_exactly_once); the data phase starts synchronised after RESET REMOTE LINK (C16_line_reset_synchronises); on the
+   original code the statement is false (C16_line_exactly_once_refuted: link test requested while a message is outstanding).
+   NOT proved: frames that are DELAYED on the line (several frames queued between the stations, answers arriving after the
+   acknowledgement timeout), the unbalanced line, and the composition with the class queues.  Those stay with the
+   differential execution of the composed model against the real CS101_Master / CS101_Slave objects on the simulated
+   line, and with the exactly-once oracle, on every run. *)
 From Coq Require Import ZArith List Bool.
-From L60870 Require Import Link.Abp Link.AbpProofs Link.Cs101Queue Link.Cs101QueueProofs Link.Ft12 Link.LinkSec Link.LinkPrim Link.LinkProofs Link.LinkOnce.
+From L60870 Require Import Link.Abp Link.AbpProofs Link.Cs101Queue Link.Cs101QueueProofs Link.Ft12 Link.LinkSec Link.LinkPrim Link.Ft12Proofs Link.LinkProofs Link.LinkOnce Link.LinkLine.
 Import ListNotations.
 Local Open Scope Z_scope.
 
@@ -83,6 +92,39 @@ Proof. exact new_data_frame_octets. Qed.
 Theorem C16_failure_is_reported : forall v c s e, sc_ls s <> LS_ERROR -> sc_ls (fst (u_step v c s e)) = LS_ERROR ->
   In (OLs (sc_addr s) LS_ERROR) (snd (u_step v c s e)).
 Proof. exact failure_is_reported. Qed.
+
+(* composition of the literal balanced primary and secondary over a lossy line (Link/LinkLine.v).  `J` is the joint invariant of
+   the data phase: A's link state AVAILABLE, queued messages well-formed, and either A idle with both frame count bits equal and
+   delivered = taken, or a test frame outstanding (delivered = taken), or a message outstanding (taken = pre ++ [it], and B either
+   still expects its bit and has delivered pre, or has toggled and delivered pre ++ [it]). *)
+Theorem C16_line_exactly_once : forall v c addrB dirA dirB, 0 <= alen c <= 2 -> fb v = true -> fg v = true -> addr_in_range (alen c) addrB ->
+  forall evs st, J c st -> lfail st = false ->
+  let st' := fold_left (lstep v c addrB dirA dirB) evs st in lfail st' = false ->
+  lD st' = lT st' \/ (lT st' = lD st' ++ [pb_last (lp st')] /\ pb_ps (lp st') = PLL_SEND_CONFIRM).
+Proof. exact line_exactly_once. Qed.
+
+Theorem C16_line_invariant : forall v c addrB dirA dirB, 0 <= alen c <= 2 -> fb v = true -> fg v = true -> addr_in_range (alen c) addrB ->
+  forall evs st, J c st -> lfail st = false -> lfail (fold_left (lstep v c addrB dirA dirB) evs st) = false ->
+  J c (fold_left (lstep v c addrB dirA dirB) evs st).
+Proof. exact line_invariant. Qed.
+
+Theorem C16_line_reset_synchronises : forall v c addrB dirA dirB, 0 <= alen c <= 2 -> addr_in_range (alen c) addrB ->
+  forall now p s q, pb_ps p = PLL_RESET -> pb_nfcb p = true -> Forall (msg_ok c) q ->
+  let '(s1, ob) := b_recv v c addrB dirB s (reset_frame c (pb_other p) dirA) in
+  ob = [OTx (bal_ack c addrB dirB)] /\
+  let '(p1, oa) := a_recv v c dirA now p (bal_ack c addrB dirB) in
+  J c {| lp := p1; lq := q; lsb := s1; lT := []; lD := []; lfail := false |}.
+Proof. exact reset_synchronises. Qed.
+
+Example C16_line_example :
+  let st' := fold_left (lstep ex_v ex_c 2 true false) ex_evs ex_st in
+  lfail st' = false /\ lD st' = [[45; 1; 6; 0; 1; 0; 7; 0]; [45; 1; 6; 0; 2; 0; 8; 1]] /\ lT st' = lD st' /\ lq st' = [].
+Proof. exact line_example. Qed.
+
+Theorem C16_line_exactly_once_refuted :
+  let st' := fold_left (lstep ex_v0 ex_c 2 true false) [LEnq [45; 1; 6; 0; 1; 0; 7; 0]; LRun 10 true false; LTest; LRun 250 false false] ex_st in
+  lfail st' = false /\ pb_ps (lp st') = PLL_AVAILABLE /\ lT st' = [[45; 1; 6; 0; 1; 0; 7; 0]] /\ lD st' = [].
+Proof. exact line_exactly_once_refuted. Qed.
 
 Example C16_example :
   delivered nat (abp_run nat (abp_init nat [1; 2; 3]%nat)
